@@ -130,7 +130,7 @@ pub fn decode_inst(t: &Tape, cfg: &GenCfg, prefix: &str) -> Inst {
     let lrecs = t.sec(S_LOCS);
     let nlocs = lrecs.len().clamp(1, MAX_LOCS);
     let locs: Vec<String> = (0..nlocs).map(|i| entity_id('L', i, id_style, prefix)).collect();
-    let dur_choices = [600u64, 0, 1200, 3600, 10800, 400_000];
+    let dur_choices = [600u64, 0, 1200, 3600, 10800, 400_000, 50_400];
     let dist_choices = [1000u64, 0, 20_000, 300_000, 2_000_000];
     let symmetric = pick_w(f(p, 15), &[3, 1]) == 0;
     // distances with metre resolution (not only whole kilometres)
@@ -147,7 +147,7 @@ pub fn decode_inst(t: &Tape, cfg: &GenCfg, prefix: &str) -> Inst {
                 dur[i][j] = dur[j][i];
                 dist[i][j] = dist[j][i];
             } else {
-                dur[i][j] = if cfg.small_grid { choose(f(r, j), &[600u64, 0, 1800]) } else { dur_choices[pick_w(f(r, j), &[6, 2, 4, 3, 2, 1])] };
+                dur[i][j] = if cfg.small_grid { choose(f(r, j), &[600u64, 0, 1800]) } else { dur_choices[pick_w(f(r, j), &[6, 2, 4, 3, 2, 1, 1])] };
                 dist[i][j] = dist_choices[pick_w(f(r, MAX_LOCS + j), &[6, 1, 4, 3, 1])];
                 if metre_noise && dist[i][j] > 0 && dist[i][j] < 1_000_000 {
                     dist[i][j] += 1 + ((i * 7 + j * 13) % 29) as u64;
@@ -163,7 +163,9 @@ pub fn decode_inst(t: &Tape, cfg: &GenCfg, prefix: &str) -> Inst {
     let dh_distances: Vec<Vec<u64>> = order.iter().map(|&i| order.iter().map(|&j| dist[i][j]).collect()).collect();
 
     // ---- parameters
-    let shunt_min = if cfg.small_grid { choose(f(p, 1), &[0u64, 600]) } else { choose(f(p, 1), &[0u64, 600, 60, 1]) };
+    // minimalDuration may exceed a whole detour (dead-head there, short trip, dead-head back):
+    // then a same-location turnaround is the slowest connection of all
+    let shunt_min = if cfg.small_grid { choose(f(p, 1), &[0u64, 600, 1800]) } else { choose(f(p, 1), &[0u64, 600, 60, 1, 1800, 3600]) };
     let shunt_dh = if cfg.small_grid { choose(f(p, 2), &[0u64, 600]) } else { choose(f(p, 2), &[0u64, 300, 60]) };
     let forbid = match pick_w(f(p, 0), &[5, 2, 2]) {
         0 => None,
@@ -440,6 +442,89 @@ pub fn decode_inst(t: &Tape, cfg: &GenCfg, prefix: &str) -> Inst {
         costs,
         nulls: pick_w(f(p, 11), &[3, 1]) == 1,
         day_limits: (0..nlocs).map(|i| if pick_w(f(p, 12).rotate_left(i as u32 * 3), &[3, 1]) == 1 { Some(5) } else { None }).collect(),
+    }
+}
+
+/// "Staggered banks": a family in which the minimum fleet is far more expensive than a fleet with
+/// one more vehicle (the two criteria of C14 are in strong conflict). k morning trips a_i: S -> P_i
+/// ending at s_i, k evening trips b_j: P_(j-1) -> S starting at s_j + L (+ slack), every dead-head
+/// between different locations takes L (16-19 h) except S -> P_0 and P_k -> S. Then a_i can be
+/// followed by b_j iff j >= i (slack 0): k vehicles need k dead-heads of L, k + 1 vehicles none.
+/// Types, costs and the null flag are kept from the generated instance (the dead-head cost is
+/// mostly raised to the largest coefficient).
+pub fn make_banks(inst: &mut Inst, g: u32, h: u32) {
+    let base = days_from_civil(BASE_DAY.0, BASE_DAY.1, BASE_DAY.2) * 86400;
+    let k = 3 + pick(g, 4); // 3..6
+    let long = choose(g << 3, &[57_600u64, 64_800, 68_400]);
+    let slack = choose(g << 6, &[0i64, 0, 600, 60]);
+    let trip = choose(g << 9, &[1800u64, 600, 1]);
+    let vt = inst.types[0].clone();
+    let mut locs: Vec<String> = vec!["BS".to_string()];
+    for i in 0..=k {
+        locs.push(format!("BP{}", i));
+    }
+    let n = locs.len();
+    let mut dur = vec![vec![long; n]; n];
+    let mut dist = vec![vec![choose(g << 12, &[1000u64, 20_000, 0]); n]; n];
+    for i in 0..n {
+        dur[i][i] = 0;
+        dist[i][i] = 0;
+    }
+    let short = choose(g << 14, &[600u64, 0, 1200]);
+    dur[0][1] = short; // S -> P_0
+    dur[n - 1][0] = short; // P_k -> S
+    if pick(h, 3) == 0 {
+        // the way back too
+        dur[1][0] = short;
+        dur[0][n - 1] = short;
+    }
+    let mut routes = Vec::new();
+    let mut departures = Vec::new();
+    let first = 3600 + 600 * pick(h << 2, 4) as i64;
+    for i in 1..=k {
+        let s_i = first + 600 * i as i64; // end of a_i
+        routes.push(Route {
+            id: format!("RA{}", i),
+            vtype: vt.id.clone(),
+            segs: vec![RSeg { id: format!("RA{}S", i), order: 0, origin: locs[0].clone(), destination: locs[1 + i].clone(), distance: 15_000, duration: trip, max_form: None }],
+        });
+        departures.push(Departure {
+            id: format!("PA{}", i),
+            route: format!("RA{}", i),
+            segs: vec![DSeg { id: format!("PA{}S0", i), rseg: format!("RA{}S", i), departure: fmt_time(base + s_i - trip as i64), passengers: 1, seated: 0 }],
+        });
+        routes.push(Route {
+            id: format!("RB{}", i),
+            vtype: vt.id.clone(),
+            segs: vec![RSeg { id: format!("RB{}S", i), order: 0, origin: locs[i].clone(), destination: locs[0].clone(), distance: 15_000, duration: trip, max_form: None }],
+        });
+        departures.push(Departure {
+            id: format!("PB{}", i),
+            route: format!("RB{}", i),
+            segs: vec![DSeg { id: format!("PB{}S0", i), rseg: format!("RB{}S", i), departure: fmt_time(base + s_i + long as i64 + slack), passengers: 1, seated: 0 }],
+        });
+    }
+    // some of the morning / evening trips need two vehicles
+    if pick(h << 5, 3) == 0 {
+        let j = pick(h << 8, departures.len());
+        departures[j].segs[0].passengers = vt.capacity + 1;
+    }
+    inst.locs = locs.clone();
+    inst.dh_indices = locs;
+    inst.dh_durations = dur;
+    inst.dh_distances = dist;
+    inst.routes = routes;
+    inst.departures = departures;
+    inst.slots = if inst.nulls { None } else { Some(Vec::new()) };
+    inst.depots = None;
+    inst.forbid = None;
+    inst.shunt_min = choose(h << 11, &[0u64, 0, 600]);
+    inst.shunt_dh = 0;
+    inst.max_distance = None;
+    inst.day_limits = vec![None; n];
+    if pick(h << 13, 4) != 0 {
+        let c = &mut inst.costs;
+        c.dead_head = c.dead_head.max(c.staff).max(c.service).max(c.idle).max(c.maintenance.unwrap_or(0)).max(1);
     }
 }
 
